@@ -288,3 +288,15 @@ CHECKS["C19"] = {
 }
 
 NOT_APPLICABLE = {}
+
+# ------------------------------------------------------------------------------------
+# entries kept one-per-file (so that several builders never edit this file concurrently):
+# harness/registry.d/Cxx.json = {"text": ..., "note": ..., "design_ref": ...}
+# ------------------------------------------------------------------------------------
+import glob as _glob
+import json as _json
+import os as _os
+
+for _f in sorted(_glob.glob(_os.path.join(_os.path.dirname(_os.path.abspath(__file__)), "registry.d", "C*.json"))):
+    with open(_f) as _fh:
+        CHECKS[_os.path.basename(_f)[:-5]] = _json.load(_fh)
